@@ -61,7 +61,7 @@ func apiIDs(x *h.X) []uint32 {
 	if x.Thorough() {
 		return tk.IDs
 	}
-	return []uint32{tk.IDs[0], tk.IDs[5]}
+	return []uint32{tk.IDs[0], 0, tk.IDs[5]} // 0 is an id like any other
 }
 
 func sectionPublicAPI(x *h.X) {
